@@ -925,6 +925,11 @@ class Gen:
         while len(ids) < n:
             ids.append(max(ids) + 1 + rng.randrange(3))
         slots = []
+        # reaction classes: the pair may also live in the *roles* of a complete
+        # graph (same adjacency, role pattern A vs. B) - only a role-aware
+        # comparison separates those
+        in_roles = kind in ("CRG", "SCRG") and n <= 7 and rng.random() < 0.5
+        role = rng.choice(("add_formed_bond", "add_broken_bond", "add_fleeting_bond"))
         for bonds in (ba, bb):
             s = self.slot_id()
             slots.append(s)
@@ -935,9 +940,13 @@ class Gen:
             for i in order:
                 yield dict(k="add_atom", s=s, a=perm[i], t=z, kw={})
             bl = list(bonds)
+            if in_roles:
+                marked = {frozenset(b) for b in bonds}
+                bl = [(x, y) for x in range(n) for y in range(x + 1, n)]
             rng.shuffle(bl)
             for x, y in bl:
-                yield dict(k="add_bond", s=s, a=perm[x], b=perm[y], kw={})
+                k = role if in_roles and frozenset((x, y)) in marked else "add_bond"
+                yield dict(k=k, s=s, a=perm[x], b=perm[y], kw={})
         a, b = slots
         if self.w.graph(a) is None or self.w.graph(b) is None:
             return
